@@ -20,6 +20,14 @@ def compileCounter : List String → List Step
      | 'p' :: ds => match (String.ofList ds).toInt? with
         | some d => [Step.lock 0, Step.load 0, Step.store 0 d, Step.unlock 0]
         | none => []
+     -- the other additive Atomic<T> operators: `x -= n`, `++x`, `x++`, `--x`, `x--`: one critical section each
+     | 's' :: ds => match (String.ofList ds).toInt? with
+        | some d => [Step.lock 0, Step.load 0, Step.store 0 (-d), Step.unlock 0]
+        | none => []
+     | ['I'] => [Step.lock 0, Step.load 0, Step.store 0 1, Step.unlock 0]
+     | ['P'] => [Step.lock 0, Step.load 0, Step.store 0 1, Step.unlock 0]
+     | ['D'] => [Step.lock 0, Step.load 0, Step.store 0 (-1), Step.unlock 0]
+     | ['M'] => [Step.lock 0, Step.load 0, Step.store 0 (-1), Step.unlock 0]
      | _ => []) ++ compileCounter rest
 
 def splitOps (p : String) : List String := (p.splitOn ",").filter fun s => s != "" && s != "-"
